@@ -128,18 +128,19 @@ func (h *harness) validate(bigs []bigJ, rng *rand.Rand) error {
 func (h *harness) runBigs(bigs []bigJ, bv []bigVerdict, rng *rand.Rand) error {
 	c, e := h.c, h.e
 	t0 := time.Now()
-	old := runtime.GOMAXPROCS(0)
-	defer runtime.GOMAXPROCS(old)
 	reps := 1
 	if !c.Quick() {
 		reps = 3
 	}
-	n := 0
-	for i, v := range bv {
+	var jobs []freeJob
+	meta := map[string]*bigVerdict{}
+	for i := range bv {
+		v := &bv[i]
 		b := bigs[i]
 		loads := loadsOf(v.Objs)
-		for _, thresh := range []int64{0, 1} {
-			p, err := e.buildPool(fmt.Sprintf("big|%d|%s", thresh, layoutKey(v.Objs, b.Desc)), b.Desc, thresh, loads)
+		// binding of the sequential semantics on the large pool (in-process, parallelism 1)
+		if v.Seq.Det {
+			p, err := e.buildPool("big|"+layoutKey(v.Objs, b.Desc), b.Desc, 0, loads)
 			if err != nil {
 				return err
 			}
@@ -148,40 +149,48 @@ func (h *harness) runBigs(bigs []bigJ, bv []bigVerdict, rng *rand.Rand) error {
 			if err != nil {
 				return fmt.Errorf("%s at parallelism 1: %w", src, err)
 			}
-			if thresh == 0 && v.Seq.Det {
-				a, _, err := realRows(r1)
-				if err != nil {
-					return err
-				}
-				want := specRows(v.Seq.Rows)
-				if d := compare(v.Seq.Mode, v.Seq.ByF, want, a, keys(want), keys(a)); d != "" {
-					c.Drift("semantics (large pool): `%s` over %v desc=%v: spec %v real %v (%s)", strings.Join(b.Prog, "|"), loads, b.Desc, keys(want), clip(r1), d)
-				}
+			a, _, err := realRows(r1)
+			if err != nil {
+				return err
 			}
+			want := specRows(v.Seq.Rows)
+			if d := compare(v.Seq.Mode, v.Seq.ByF, want, a, keys(want), keys(a)); d != "" {
+				c.Drift("semantics (large pool): `%s` over %v desc=%v: spec %v real %v (%s)", strings.Join(b.Prog, "|"), loads, b.Desc, keys(want), clip(r1), d)
+			}
+		}
+		for _, thresh := range []int64{0, 1} {
 			for rep := 0; rep < reps; rep++ {
 				for _, par := range []int{2, 3, 8, 16} {
 					procs := []int{1, 2, 16}[rng.Intn(3)]
-					runtime.GOMAXPROCS(procs)
-					var tags []string
-					if seq, err := e.plan(src, par); err == nil {
-						_, tags, _ = e.realPlan(seq)
-					}
-					rN, errN := e.query(src, par)
-					w := witness{Loads: loads, Desc: b.Desc, Thresh: thresh, Prog: b.Prog, N: par, Procs: procs, Query: src, Par1: r1, ParN: rN}
-					// with thresh = 1 the objects differ from the layout the spec evaluated, the
-					// rows and hence the sequential semantics (mode) are the same
-					h.oracle(w, v.Seq.Mode, v.Seq.ByF, v.Seq.Det, r1, rN, errN, tags)
-					c.Eval(fmt.Sprintf("big|%d|%s|%s|%d|%d", thresh, layoutKey(v.Objs, b.Desc), strings.Join(b.Prog, "|"), par, procs), true)
-					n++
+					key := fmt.Sprintf("big|%d|%d|%s|%s|%d|%d", len(jobs), thresh, layoutKey(v.Objs, b.Desc), strings.Join(b.Prog, "|"), par, procs)
+					// with thresh = 1 the objects differ from the layout the spec evaluated; the rows
+					// and hence the sequential semantics (which comparison applies) are the same
+					jobs = append(jobs, freeJob{Key: key, Pool: fmt.Sprintf("big|%d|%s", thresh, layoutKey(v.Objs, b.Desc)), Loads: loads, Desc: b.Desc, Thresh: thresh, Prog: b.Prog, Par: par, Procs: procs})
+					meta[key] = v
 				}
-			}
-			if i == 0 && thresh == 1 {
-				c.Sample(map[string]any{"large_pool_objects": p.nobj, "desc": b.Desc, "query": src, "mode": v.Seq.Mode, "result": r1})
 			}
 		}
 	}
-	c.Set("large_pool_runs", n)
-	c.Logf("large pools: %d (pool, program) pairs, %d free-running runs (%.1fs)", len(bv), n, time.Since(t0).Seconds())
+	res, err := runFree(jobs)
+	if err != nil {
+		return err
+	}
+	sampled := false
+	for _, j := range jobs {
+		r, ok := res[j.Key]
+		if !ok {
+			continue
+		}
+		v := meta[j.Key]
+		h.judgeFree(j, r, v.Seq.Mode, v.Seq.ByF, v.Seq.Det)
+		c.Eval(j.Key, true)
+		if !sampled && j.Thresh == 1 && !r.Crash {
+			sampled = true
+			c.Sample(map[string]any{"large_pool_objects": r.Nobj, "desc": j.Desc, "query": r.Query, "parallelism": j.Par, "gomaxprocs": j.Procs, "mode": v.Seq.Mode, "result": r.RN})
+		}
+	}
+	c.Set("large_pool_runs", len(jobs))
+	c.Logf("large pools: %d (pool, program) pairs, %d free-running runs (%.1fs)", len(bv), len(jobs), time.Since(t0).Seconds())
 	return nil
 }
 
